@@ -4,6 +4,7 @@ Exports the time normal-form helpers used by C10, C16 and C19.
 """
 import ast
 
+from ..match import facts, Q
 from ..srcmodel import attr_chain, call_name, unparse, norm_text, walk_no_nested
 from ..cfg import cfg_of, raised_class
 from ..dataflow import Origins, ReachingDefs
@@ -321,8 +322,8 @@ def r1_validate_on_or_after(run, rule="R1"):
     rets = cfg.by_kind("return")
     ok_ret = False
     for r in rets:
-        gs = {(unparse(e), p) for e, p, _ in cfg.guards(r.id)}
-        if ("not_on_or_after", True) in gs and \
+        gs = facts(cfg, r.id)
+        if Q("not_on_or_after", True) in gs and \
                 isinstance(r.ast.value, ast.Name):
             sym = TimeSym(cfg, r.id, params={"not_on_or_after": "bound"})
             ok_ret = sym(r.ast.value) in ("bound", {"bound": 1})
@@ -355,7 +356,7 @@ def r1_validate_before(run, rule="R1"):
     for rn, forms, und in got:
         gs = {(unparse(e), p) for e, p, _ in cfg.guards(rn.id)
               if not isinstance(e, ast.Compare)}
-        run.check(gs <= {("not_before", True)}, rule, fi.qual + "::presence",
+        run.check(gs <= {Q("not_before", True)}, rule, fi.qual + "::presence",
                   "checked whenever the bound is present",
                   "extra conditions on the check: %s" % sorted(gs),
                   fi.loc(rn.ast), nontrivial=False)
@@ -767,8 +768,8 @@ def r4_laxity_closed(run):
         s = nd.ast
         if isinstance(s, ast.Assign) and any(
                 isinstance(t, ast.Name) and t.id == "lax" for t in s.targets):
-            gs = {(unparse(e), p) for e, p, _ in cfg.guards(nd.id)}
-            run.check(("self.test", True) in gs, "R4", fi.qual + "::lax=",
+            gs = facts(cfg, nd.id)
+            run.check(Q("self.test", True) in gs, "R4", fi.qual + "::lax=",
                       "lax only set under self.test",
                       "lax assigned under %s" % sorted(gs), fi.loc(s))
     ai = m.func("response.AuthnResponse.__init__")
